@@ -13,7 +13,7 @@ import math
 
 import numpy as np
 
-from vf import sim, workloads as wl
+from vf import sim, tables, workloads as wl
 
 PID = "C01"
 RULE = (
@@ -80,10 +80,48 @@ def generate(ck):
                 d["grid"] = {"family": "huge-steps", "nt": 40, "t_end": 1.0, "seed": int(rng.integers(0, 2**31))}
             d["relax"] = how
         descs.append(d)
+        if i % 45 == 44:
+            # a group of four simulations with one node count, to be run at the same time
+            nx = int(rng.choice([10, 30, 80]))
+            group = []
+            while len(group) < 4:
+                g = sim.random_sim_desc(rng, ck.tier, nx_choices=(nx,), families=("quadratic", "geometric", "sorted-random", "mixed", "dyadic-blocks"))
+                g["grid"]["nt"] = int(rng.choice([120, 300]))
+                g["reused"] = False
+                if g["cls"] == "single":
+                    tb = tables.from_desc(g["table"])
+                    if "compressibility" in tb and not np.all(np.asarray(tb["compressibility"], dtype=float) > 0):
+                        continue
+                group.append(g)
+            descs.append({"kind": "threads", "runs": group})
     return descs
 
 
+def _threads_case(ck, desc):
+    """Four simulations with one node count running at the same time, each judged by the ordinary oracle."""
+    built = [sim.build(d) for d in desc["runs"]]
+    evs, errs = sim.simulate_concurrently([(b[0], b[1], b[2]) for b in built])
+    if errs:
+        ck.violation("threads-every-simulate-returns", {"errors": errs[:3]}, desc)
+        return True, None
+    nontrivial = False
+    for d, b, ev in zip(desc["runs"], built, evs):
+        if ev is None:
+            ck.inconclusive_because("postcondition on simulate did not fire exactly once for a concurrent run")
+            return False, None
+        res, time, sched, fluid, _ = b
+        ck.count("contract_evaluations.simulate")
+        m_i, m_f = sim.frac_face_values(d, res, fluid, time, sched)
+        nt_, _ = judge(ck, d, d["cls"], res, fluid, ev["time"], ev["pp"], sched, m_i, m_f)
+        nontrivial = nontrivial or bool(nt_)
+        ck.count("runs_simulated_concurrently")
+    ck.count("thread_groups")
+    return nontrivial, {"threads": len(built), "nx": desc["runs"][0]["nx"]}
+
+
 def run_case(ck, desc):
+    if desc.get("kind") == "threads":
+        return _threads_case(ck, desc)
     res, time, sched, fluid, _ = sim.build(desc)
     if fluid is not None and not np.all(np.asarray(fluid.pvt_props["alpha"], dtype=float) > 0):
         # the property's premise is a table with positive diffusivity (an arbitrary synthetic black-oil
